@@ -171,6 +171,7 @@ def run(ctx):  # noqa: C901
 
     # ---- BCS game ----------------------------------------------------------------------------------
     _bcs(ctx, cls.methods["from_bcs_game"])
+    _odometer(ctx)
 
     # ---- quantum lower bound (see-saw) ------------------------------------------------------------
     qv = cls.methods["quantum_value_lower_bound"]
@@ -557,6 +558,44 @@ def _product_game(ctx, init, role_names=("A_out", "B_out", "A_in", "B_in")):
     okp = any(isinstance(n, ast.Call) and m.resolve_call(init, n).key.endswith("tensor.tensor") and len(n.args) == 2 and unparse(n.args[0]) == "prob_mat" and unparse(n.args[1]) == "reps"
               for n in walk_no_nested(init.node))
     ctx.ob("R-ENUM", init, "question distribution is the reps-fold tensor power", okp, "tensor(prob_mat, reps)" if okp else "prob_mat is not raised to the reps-th tensor power")
+
+
+def _odometer(ctx):
+    """update_odometer is a mixed-radix increment.  A carry may run through ALL digits ([0,1,1] -> [1,0,0]): the digit information has
+    to travel n positions, which needs a loop (or recursion) over the digits, or a cumulative / index-arithmetic primitive
+    (ravel_multi_index + unravel_index, cumprod, cumsum).  A single vectorised shift moves a carry by one position only."""
+    m = ctx.model
+    try:
+        f = m.func("update_odometer.update_odometer")
+    except KeyError:
+        return
+    loops = [n for n in ast.walk(f.node) if isinstance(n, (ast.For, ast.While))]
+    rec = any(isinstance(n, ast.Call) and isinstance(n.func, ast.Name) and n.func.id == f.name for n in ast.walk(f.node))
+    prim = [n for n in ast.walk(f.node) if isinstance(n, ast.Call) and getattr(n.func, "attr", getattr(n.func, "id", "")) in
+            ("ravel_multi_index", "unravel_index", "cumprod", "cumsum", "accumulate", "divmod")]
+    ok = bool(loops) or rec or bool(prim)
+    ctx.ob("R-ENUM", f, "the carry of the mixed-radix increment can run through every digit (loop, recursion or cumulative primitive)", ok,
+           f"{len(loops)} loop(s) over the digits" if loops else "index arithmetic" if prim else "recursion" if rec else
+           "the increment is one vectorised step: a carry moves one position to the left and a carry it produces there is lost ([0,1,1] with limits 2,2,2 -> [0,0,0] "
+           "instead of [1,0,0]); product games with three or more repetitions are assembled from the wrong index vectors")
+    if loops:
+        # the loop walks the digits from the last to the first
+        lp = loops[0]
+        it = unparse(lp.iter) if isinstance(lp, ast.For) else ""
+        down = "reversed" in it or (it.startswith("range(") and it.rstrip(")").replace(" ", "").endswith("-1"))
+        ctx.ob("R-ENUM", f, "digits are visited from the least significant (last) to the first", down or None,
+               f"for .. in {it}" if down else f"loop `{it}` not recognised as a right-to-left walk", lp, required=False)
+        # reset to 0 and carry into the left neighbour under the overflow test
+        resets = [n for n in ast.walk(lp) if isinstance(n, ast.Assign) and isinstance(n.targets[0], ast.Subscript) and isinstance(n.value, ast.Constant) and n.value.value == 0]
+        carries = [n for n in ast.walk(lp) if (isinstance(n, ast.AugAssign) and isinstance(n.op, ast.Add)) or
+                   (isinstance(n, ast.Assign) and isinstance(n.targets[0], ast.Subscript) and isinstance(n.value, ast.BinOp) and isinstance(n.value.op, ast.Add)
+                    and unparse(n.value.left) == unparse(n.targets[0]))]
+        okc = bool(resets) and bool(carries)
+        ctx.ob("R-ENUM", f, "an overflowing digit is reset to 0 and 1 is carried into its left neighbour", okc,
+               "reset + carry inside the loop" if okc else "the reset or the carry is missing from the loop", lp)
+        cmpn = [n for n in ast.walk(lp) if isinstance(n, ast.If) and isinstance(n.test, ast.Compare) and "upper_lim" in unparse(n.test)]
+        okt = bool(cmpn) and isinstance(cmpn[0].test.ops[0], (ast.GtE,)) or (bool(cmpn) and isinstance(cmpn[0].test.ops[0], ast.LtE) and "upper_lim" in unparse(cmpn[0].test.left))
+        ctx.ob("R-ENUM", f, "overflow test is digit >= limit (limits are exclusive)", bool(okt), unparse(cmpn[0].test) if cmpn else "no comparison with upper_lim", cmpn[0] if cmpn else None)
 
 
 def _bcs(ctx, f):
